@@ -47,83 +47,125 @@ Proof.
   split; [assumption|]. rewrite has_spec by lia. now apply negb_true_iff in T2.
 Qed.
 
+(* ---- the two placements, and where AllMoves lists them ---- *)
+Lemma place_flat_ok p x y i :
+  ((x <? 0) || (Z.of_N (size p) <=? x) || (y <? 0) || (Z.of_N (size p) <=? y))%Z = false ->
+  sq_index p x y = i -> has (N.lor (White p) (Move.Black p)) i = false -> idx (Height p) i = Ok 0 ->
+  0 < (if (if (move p <? 2)%Z then negb (to_move_white p) else to_move_white p) then whiteStones p else blackStones p) ->
+  exists q, mv p {| mX := x; mY := y; mT := 2; mS := 0 |} = Ok q.
+Proof.
+  intros Hb Hsq Hemp Hidx Hst.
+  unfold mv, move_prealloc. cbn [mX mY mT mS]. rewrite Hb. cbn [andb].
+  change (bind (Ok (inl KFlat)) ?f) with (f (inl KFlat)). cbv beta.
+  rewrite Hsq, Hemp, Hidx.
+  destruct (move p <? 2)%Z; cbn [bind]; destruct (to_move_white p); cbn [negb] in *.
+  all: match goal with |- context [(?r <=? 0)%N] => replace (r <=? 0) with false by lia end.
+  all: cbn [bind]; eexists; reflexivity.
+Qed.
+
+Lemma place_cap_ok p x y i :
+  ((x <? 0) || (Z.of_N (size p) <=? x) || (y <? 0) || (Z.of_N (size p) <=? y))%Z = false ->
+  sq_index p x y = i -> has (N.lor (White p) (Move.Black p)) i = false -> idx (Height p) i = Ok 0 ->
+  (2 <= move p)%Z -> 0 < (if to_move_white p then whiteCaps p else blackCaps p) ->
+  exists q, mv p {| mX := x; mY := y; mT := 4; mS := 0 |} = Ok q.
+Proof.
+  intros Hb Hsq Hemp Hidx Hop Hst.
+  unfold mv, move_prealloc. cbn [mX mY mT mS]. rewrite Hb. cbn [andb].
+  change (bind (Ok (inl KCap)) ?f) with (f (inl KCap)). cbv beta.
+  rewrite Hsq, Hemp, Hidx. replace (move p <? 2)%Z with false by lia.
+  cbn [bind]; destruct (to_move_white p).
+  all: match goal with |- context [(?r <=? 0)%N] => replace (r <=? 0) with false by lia end.
+  all: cbn [bind]; eexists; reflexivity.
+Qed.
+
+(* what AllMoves emits for an empty square (x, y) *)
+Definition place_cell (p : position) (xn yn : nat) : list rmove :=
+  {| mX := Z.of_nat xn; mY := Z.of_nat yn; mT := 2; mS := 0 |} ::
+  (if (2 <=? move p)%Z then {| mX := Z.of_nat xn; mY := Z.of_nat yn; mT := 3; mS := 0 |} ::
+     (if (if to_move_white p then 0 <? whiteCaps p else 0 <? blackCaps p)
+      then [{| mX := Z.of_nat xn; mY := Z.of_nat yn; mT := 4; mS := 0 |}] else []) else []).
+
+Lemma all_moves_place_cell p xn yn m :
+  (xn < N.to_nat (size p))%nat -> (yn < N.to_nat (size p))%nat ->
+  nthN (Height p) (N.of_nat (yn * N.to_nat (size p) + xn)) = 0 ->
+  In m (place_cell p xn yn) -> In m (all_moves p).
+Proof.
+  intros Hx Hy Hh Hm. unfold all_moves. apply in_flat_map. exists xn. split; [apply in_seq; lia|].
+  apply in_flat_map. exists yn. split; [apply in_seq; lia|]. cbv zeta. rewrite Hh. exact Hm.
+Qed.
+
+(* ---- what "not over" means in the model of GameOver ---- *)
+Lemma game_over_unfold p : game_over p =
+  match analyze p with
+  | None => None
+  | Some (wg, bg) =>
+    match has_road p wg bg with
+    | Some c => Some (true, c)
+    | None =>
+      if negb (u8 (whiteStones p + whiteCaps p) =? 0) && negb (u8 (blackStones p + blackCaps p) =? 0) &&
+         negb (N.lor (White p) (Move.Black p) =? cMask (precompute (size p)))
+      then Some (false, GNone) else Some (true, flats_winner p)
+    end
+  end.
+Proof. reflexivity. Qed.
+
+Lemma game_over_false_inv p c : game_over p = Some (false, c) ->
+  u8 (whiteStones p + whiteCaps p) <> 0 /\ u8 (blackStones p + blackCaps p) <> 0 /\
+  N.lor (White p) (Move.Black p) <> cMask (precompute (size p)).
+Proof.
+  intros G. rewrite game_over_unfold in G.
+  destruct (analyze p) as [[wg bg]|]; [|discriminate]. destruct (has_road p wg bg); [discriminate|].
+  assert (E : negb (u8 (whiteStones p + whiteCaps p) =? 0) && negb (u8 (blackStones p + blackCaps p) =? 0) &&
+              negb (N.lor (White p) (Move.Black p) =? cMask (precompute (size p))) = true).
+  { match type of G with (if ?c then _ else _) = _ => destruct c; [reflexivity|discriminate] end. }
+  clear G. apply andb_prop in E as [E E3]. apply andb_prop in E as [E1 E2].
+  apply negb_true_iff, N.eqb_neq in E1, E2, E3. auto.
+Qed.
+
 Theorem live_has_legal_move p c :
   wf p -> in_mask p -> opening_supply p -> game_over p = Some (false, c) ->
   exists m q, In m (all_moves p) /\ mv p m = Ok q.
 Proof.
   intros W M OS G. pose proof (wf_size p W) as Hs.
-  unfold game_over in G. destruct (analyze p) as [[wg bg]|]; [|discriminate].
-  destruct (has_road p wg bg); [discriminate|].
-  destruct (negb (u8 (whiteStones p + whiteCaps p) =? 0) && negb (u8 (blackStones p + blackCaps p) =? 0) &&
-            negb (N.lor (White p) (Move.Black p) =? cMask (precompute (size p)))) eqn:E; [|discriminate].
-  apply andb_prop in E as [E E3]. apply andb_prop in E as [E1 E2].
-  apply negb_true_iff, N.eqb_neq in E1, E2, E3.
+  destruct (game_over_false_inv p c G) as (E1 & E2 & E3). clear G.
   destruct (exists_empty_square p W M E3) as (i & Hi & Hemp).
   pose proof (wf_res p W) as (R1 & R2 & R3 & R4).
   pose proof (wf_lenH p W) as LH.
   assert (Hh : nthN (Height p) i = 0) by (apply (wf_occ p W i Hi); exact Hemp).
-  set (sz := size p) in *.
-  assert (Hm : i mod sz < sz) by (apply N.mod_lt; lia).
-  assert (Hdv : i / sz < sz) by (apply N.div_lt_upper_bound; lia).
-  assert (Hdm : i = sz * (i / sz) + i mod sz) by (apply N.div_mod; lia).
-  set (xn := N.to_nat (i mod sz)). set (yn := N.to_nat (i / sz)).
-  assert (Hx : (xn < N.to_nat sz)%nat) by (subst xn; clear - Hm; lia).
-  assert (Hy : (yn < N.to_nat sz)%nat) by (subst yn; clear - Hdv; lia).
-  assert (Ei : N.of_nat (yn * N.to_nat sz + xn) = i).
+  assert (Hm : i mod size p < size p) by (apply N.mod_lt; lia).
+  assert (Hdv : i / size p < size p) by (apply N.div_lt_upper_bound; lia).
+  assert (Hdm : i = size p * (i / size p) + i mod size p) by (apply N.div_mod; lia).
+  remember (N.to_nat (i mod size p)) as xn eqn:Exn. remember (N.to_nat (i / size p)) as yn eqn:Eyn.
+  assert (Hx : (xn < N.to_nat (size p))%nat) by (subst xn; clear - Hm; lia).
+  assert (Hy : (yn < N.to_nat (size p))%nat) by (subst yn; clear - Hdv; lia).
+  assert (Ei : N.of_nat (yn * N.to_nat (size p) + xn) = i).
   { subst xn yn. rewrite Nat2N.inj_add, Nat2N.inj_mul, !N2Nat.id. rewrite Hdm at 3. lia. }
   assert (Hsq : sq_index p (Z.of_nat xn) (Z.of_nat yn) = i).
-  { destruct (sq_index_on_board p (Z.of_nat xn) (Z.of_nat yn)) as [Q _]; [assumption|fold sz; lia|fold sz; lia|].
-    rewrite Q. fold sz. lia. }
+  { destruct (sq_index_on_board p (Z.of_nat xn) (Z.of_nat yn)) as [Q _]; [assumption|lia|lia|].
+    rewrite Q. rewrite <- Ei. lia. }
   assert (Hidx : idx (Height p) i = Ok 0).
-  { rewrite (idx_ok _ _ 0) by (rewrite LH; fold sz; lia). f_equal. exact Hh. }
-  (* which placement *)
-  assert (Hbounds : ((Z.of_nat xn <? 0) || (Z.of_N sz <=? Z.of_nat xn) || (Z.of_nat yn <? 0) || (Z.of_N sz <=? Z.of_nat yn))%Z = false) by lia.
-  assert (Hcell : forall tail,
-     In tail (flat_map (fun x => flat_map (fun y =>
-        let i := N.of_nat (y * N.to_nat sz + x) in
-        let X := Z.of_nat x in let Y := Z.of_nat y in
-        if nthN (Height p) i =? 0 then
-          {| mX := X; mY := Y; mT := 2; mS := 0 |} ::
-          (if (2 <=? move p)%Z then {| mX := X; mY := Y; mT := 3; mS := 0 |} ::
-             (if (if to_move_white p then 0 <? whiteCaps p else 0 <? blackCaps p) then [{| mX := X; mY := Y; mT := 4; mS := 0 |}] else []) else [])
-        else []) (seq 0 (N.to_nat sz))) (seq 0 (N.to_nat sz))) -> True) by auto.
-  clear Hcell.
-  assert (Hin : forall m,
-     In m ({| mX := Z.of_nat xn; mY := Z.of_nat yn; mT := 2; mS := 0 |} ::
-          (if (2 <=? move p)%Z then {| mX := Z.of_nat xn; mY := Z.of_nat yn; mT := 3; mS := 0 |} ::
-             (if (if to_move_white p then 0 <? whiteCaps p else 0 <? blackCaps p)
-              then [{| mX := Z.of_nat xn; mY := Z.of_nat yn; mT := 4; mS := 0 |}] else []) else [])) ->
-     In m (all_moves p)).
-  { intros m Hmm. unfold all_moves. fold sz. apply in_flat_map. exists xn. split; [apply in_seq; lia|].
-    apply in_flat_map. exists yn. split; [apply in_seq; lia|]. cbv zeta. rewrite Ei, Hh. cbn [N.eqb]. exact Hmm. }
+  { rewrite (idx_ok _ _ 0) by (rewrite LH; lia). f_equal. exact Hh. }
+  assert (Hbounds : ((Z.of_nat xn <? 0) || (Z.of_N (size p) <=? Z.of_nat xn) || (Z.of_nat yn <? 0) || (Z.of_N (size p) <=? Z.of_nat yn))%Z = false) by lia.
+  assert (Hin : forall m, In m (place_cell p xn yn) -> In m (all_moves p)).
+  { intros m. apply all_moves_place_cell; try assumption. rewrite Ei. exact Hh. }
+  clear Exn Eyn Hdm Hm Hdv.
   destruct (Z.ltb_spec (move p) 2) as [Hop|Hop].
   - (* opening: the flat placement of the opponent's stone *)
     specialize (OS Hop).
-    assert (Hmv : exists q, mv p {| mX := Z.of_nat xn; mY := Z.of_nat yn; mT := 2; mS := 0 |} = Ok q).
-    { unfold mv, move_prealloc. cbn [mX mY mT mS]. fold sz. rewrite Hbounds. cbn [andb negb N.eqb Pos.eqb bind].
-      replace (move p <? 2)%Z with true by lia. cbn [bind]. rewrite Hsq, Hemp, Hidx.
-      destruct (to_move_white p); cbn [negb].
-      + replace (blackStones p <=? 0) with false by lia. cbn [bind]. eexists; reflexivity.
-      + replace (whiteStones p <=? 0) with false by lia. cbn [bind]. eexists; reflexivity. }
-    destruct Hmv as [q Hq]. eexists _, q. split; [apply Hin; left; reflexivity|exact Hq].
+    destruct (place_flat_ok p _ _ i Hbounds Hsq Hemp Hidx) as [q Hq].
+    { replace (move p <? 2)%Z with true by lia. destruct (to_move_white p); exact OS. }
+    eexists _, q. split; [|exact Hq]. apply Hin. left. reflexivity.
   - destruct (N.eq_dec (if to_move_white p then whiteStones p else blackStones p) 0) as [Z0|NZ].
-    + (* no stones left: the capstone *)
-      assert (Hcap : (if to_move_white p then 0 <? whiteCaps p else 0 <? blackCaps p) = true).
+    + (* the mover has run out of stones: the capstone *)
+      assert (Hcap : 0 < (if to_move_white p then whiteCaps p else blackCaps p)).
       { unfold u8 in E1, E2. destruct (to_move_white p); rewrite Z0 in *; lia. }
-      assert (Hmv : exists q, mv p {| mX := Z.of_nat xn; mY := Z.of_nat yn; mT := 4; mS := 0 |} = Ok q).
-      { unfold mv, move_prealloc. cbn [mX mY mT mS]. fold sz. rewrite Hbounds. cbn [andb negb N.eqb Pos.eqb bind].
-        replace (move p <? 2)%Z with false by lia. cbn [bind]. rewrite Hsq, Hemp, Hidx.
-        destruct (to_move_white p).
-        * replace (whiteCaps p <=? 0) with false by lia. cbn [bind]. eexists; reflexivity.
-        * replace (blackCaps p <=? 0) with false by lia. cbn [bind]. eexists; reflexivity. }
-      destruct Hmv as [q Hq]. eexists _, q. split; [|exact Hq].
-      apply Hin. right. replace (2 <=? move p)%Z with true by lia. right. rewrite Hcap. left. reflexivity.
-    + assert (Hmv : exists q, mv p {| mX := Z.of_nat xn; mY := Z.of_nat yn; mT := 2; mS := 0 |} = Ok q).
-      { unfold mv, move_prealloc. cbn [mX mY mT mS]. fold sz. rewrite Hbounds. cbn [andb negb N.eqb Pos.eqb bind].
-        replace (move p <? 2)%Z with false by lia. cbn [bind]. rewrite Hsq, Hemp, Hidx.
-        destruct (to_move_white p).
-        * replace (whiteStones p <=? 0) with false by lia. cbn [bind]. eexists; reflexivity.
-        * replace (blackStones p <=? 0) with false by lia. cbn [bind]. eexists; reflexivity. }
-      destruct Hmv as [q Hq]. eexists _, q. split; [apply Hin; left; reflexivity|exact Hq].
+      destruct (place_cap_ok p _ _ i Hbounds Hsq Hemp Hidx Hop Hcap) as [q Hq].
+      eexists _, q. split; [|exact Hq]. apply Hin. unfold place_cell. right.
+      replace (2 <=? move p)%Z with true by lia. right.
+      replace (if to_move_white p then 0 <? whiteCaps p else 0 <? blackCaps p) with true by (destruct (to_move_white p); lia).
+      left. reflexivity.
+    + destruct (place_flat_ok p _ _ i Hbounds Hsq Hemp Hidx) as [q Hq].
+      { replace (move p <? 2)%Z with false by lia. lia. }
+      eexists _, q. split; [|exact Hq]. apply Hin. left. reflexivity.
 Qed.
 Print Assumptions live_has_legal_move.
